@@ -3,7 +3,7 @@ import json
 import pickle
 import warnings
 from collections import Counter
-from copy import deepcopy
+from copy import copy, deepcopy
 from dataclasses import asdict, dataclass, field
 from itertools import chain
 from pathlib import Path
@@ -1065,15 +1065,19 @@ class BaseDAGExecution(Generic[P, RVDAG]):
                 to_cache_results = results
             pickle.dump(to_cache_results, f, protocol=pickle.HIGHEST_PROTOCOL, fix_imports=False)
 
-    def _pre_call(self) -> None:
+    def _pre_call(self) -> StrictDict[Identifier, Any]:
         if self.executed:
             raise TawaziUsageError("DAGExecution object has already been executed.")
 
+        results = self.results
         if self.from_cache:
             with open(self.from_cache, "rb") as f:
                 cached_results = pickle.load(f)  # noqa: S301
-            for node in self.cached_nodes:
-                self.results = cached_results[node.id]
+            # the scheduler doesn't execute the ExecNodes whose results are provided
+            results = copy(results)
+            for node_id, result in cached_results.items():
+                results.force_set(node_id, result)
+        return results
 
     def _post_call(self) -> RVDAG:
         # mark as executed. Important for the next step
@@ -1113,11 +1117,11 @@ class DAGExecution(BaseDAGExecution[P, RVDAG]):
         Returns:
             RVDAG: the return value of the DAG's Execution
         """
-        self._pre_call()
+        results = self._pre_call()
 
         # 2. Execute the scheduler
         self.xn_dict, self.results, self.profiles = self.dag.run_subgraph(
-            deepcopy(self.graph), self.results, *args
+            deepcopy(self.graph), results, *args
         )
 
         return self._post_call()
@@ -1148,11 +1152,11 @@ class AsyncDAGExecution(BaseDAGExecution[P, RVDAG]):
         Returns:
             RVDAG: the return value of the DAG's Execution
         """
-        self._pre_call()
+        results = self._pre_call()
 
         # 2. Execute the scheduler
         self.xn_dict, self.results, self.profiles = await self.dag.run_subgraph(
-            deepcopy(self.graph), self.results, *args
+            deepcopy(self.graph), results, *args
         )
 
         return self._post_call()
